@@ -53,7 +53,7 @@ def frames_spec(variants):
     # per-wrapper transparency: rendering a wrapper has as many frames as rendering what it wraps
     clauses = []
     for name in transparent:
-        clauses.append(f"        error is {name} ==> r.stacktrace@.len() == frames(error), // [C17:transparent[{name}]_wrapper_is_invisible_to_the_renderer]")
+        clauses.append(f"        error is {name} ==> r.stacktrace@.len() == frames(error), // [C17_C18:transparent[{name}]_wrapper_is_invisible_to_the_renderer]")
     return txt, transparent, "\n".join(clauses)
 
 
